@@ -230,6 +230,31 @@ pub fn c09_three_sources(inp: &[u8; 4]) -> Result<(), u32> {
     Ok(())
 }
 
+/// C09 (chain only): three sources with 0..1 message each chained by SequentialMultiIterator (catches sources dropped after
+/// an empty one). inp[0..3]: lengths (mod 2), inp[3]: start index. codes: 11 count, 12 index, 13 order
+pub fn c09_chain3(inp: &[u8; 4]) -> Result<(), u32> {
+    let start = inp[3] as u32;
+    let mut total = 0usize;
+    let mut v1: Vec<Box<dyn Iterator<Item = DltMessage>>> = Vec::with_capacity(3);
+    for s in 0..3usize {
+        let l = (inp[s] % 2) as usize;
+        total += l;
+        let a: Vec<DltMessage> = if l == 1 { vec![mk_msg(s as u64, s as u8 + 1)] } else { Vec::new() };
+        v1.push(Box::new(a.into_iter()));
+    }
+    let mut n = 0usize;
+    let mut prev = 0u8;
+    for m in SequentialMultiIterator::new(start, v1.into_iter()) {
+        if m.index != start + n as u32 { return Err(12); }
+        if m.standard_header.mcnt <= prev { return Err(13); }
+        prev = m.standard_header.mcnt;
+        n += 1;
+        if n > 3 { return Err(11); }
+    }
+    if n != total { return Err(11); }
+    Ok(())
+}
+
 use adlt::dlt::{parse_dlt_with_storage_header, ErrorKind};
 
 fn sh_pat(d: &[u8], i: usize) -> bool { i + 4 <= d.len() && d[i] == 0x44 && d[i + 1] == 0x4c && d[i + 2] == 0x54 && d[i + 3] == 0x01 }
